@@ -9,11 +9,27 @@ where for<'a> &'a Self: EucRingOps<Self> {}
 
 impl<T> DivRound for T
 where T: Integer, for<'x> &'x T: IntOps<T> {
+    // The integer nearest to self / q (ties away from zero), computed exactly. 
     fn div_round(&self, q: &Self) -> Self {
-        let a = self.to_f64().unwrap();
-        let b = q.to_f64().unwrap();
-        let r = (a / b).round();
-        Self::from_f64(r).unwrap()
+        let (a, b) = (self, q);
+        let d = a / b; // truncated quotient
+        let r = a % b; // |r| < |b|
+
+        if r.is_zero() { 
+            return d
+        }
+
+        // s has |s| = |b| - |r|; round away from the truncated quotient iff |r| >= |s|.
+        let same_sign = r.is_negative() == b.is_negative();
+        let s = if same_sign { b - &r } else { b + &r };
+
+        if r.abs() < s.abs() { 
+            d
+        } else if same_sign { 
+            d + Self::one()
+        } else { 
+            d - Self::one()
+        }
     }
 }
 
